@@ -927,9 +927,12 @@ impl StreamsState {
         let receive_window = receive_window.into();
         let mut expanded = false;
         if receive_window > self.receive_window {
-            self.local_max_data = self
-                .local_max_data
-                .saturating_add(receive_window - self.receive_window);
+            // Shrink debt that was not paid off yet is cancelled first; only the remainder is new
+            // credit for the peer.
+            let growth: u64 = receive_window - self.receive_window;
+            let cancelled = growth.min(self.receive_window_shrink_debt);
+            self.receive_window_shrink_debt -= cancelled;
+            self.local_max_data = self.local_max_data.saturating_add(growth - cancelled);
             expanded = true;
         } else {
             let diff = self.receive_window - receive_window;
